@@ -129,6 +129,44 @@ fn verif_replay() {
                 Err(_) => outcome(serde_json::json!({"panicked": true})),
             }
         }
+        "stream_battery" => {
+            // two well-formed frames glued together, delivered whole / in two pieces at every cut / byte by byte:
+            // every delivery must decode to the same frames
+            let f1 = Frame { addr: Some((0x01020304u32, 80u16).into()), session_id: 1, body: Bytes::from_static(b"ab") };
+            let f2 = Frame { addr: Some(("example.org".to_string(), 443u16).into()), session_id: 2, body: Bytes::from_static(b"cdefg") };
+            let mut data = f1.make_header().to_vec(); data.extend_from_slice(&f1.body);
+            data.extend_from_slice(&f2.make_header()); data.extend_from_slice(&f2.body);
+            let rt = tokio::runtime::Builder::new_current_thread().enable_all().build().unwrap();
+            let run = |chunks: Vec<Vec<u8>>| -> Result<Vec<String>, ()> {
+                catch_unwind(AssertUnwindSafe(|| {
+                    rt.block_on(async {
+                        let mut b = tokio_test::io::Builder::new();
+                        for c in &chunks { b.read(c); }
+                        let mut reader = StreamFrameReader::new(b.build());
+                        let mut outs = vec![];
+                        for _ in 0..4 {
+                            match reader.read().await {
+                                Ok(Some(f)) => outs.push(format!("{}|{}|{}", show(&f.addr), f.session_id, hex(&f.body))),
+                                Ok(None) => { outs.push("eof".to_string()); break; }
+                                Err(e) => { outs.push(format!("err:{}", e)); break; }
+                            }
+                        }
+                        outs
+                    })
+                })).map_err(|_| ())
+            };
+            let whole = run(vec![data.clone()]);
+            let mut mismatch = serde_json::Value::Null;
+            for cut in 1..data.len() {
+                let r = run(vec![data[..cut].to_vec(), data[cut..].to_vec()]);
+                if r != whole { mismatch = serde_json::json!({"cut": cut, "got": r.ok(), "whole": whole.clone().ok()}); break; }
+            }
+            if mismatch.is_null() {
+                let r = run(data.iter().map(|b| vec![*b]).collect());
+                if r != whole { mismatch = serde_json::json!({"cut": "bytewise", "got": r.ok(), "whole": whole.clone().ok()}); }
+            }
+            outcome(serde_json::json!({"panicked": whole.is_err(), "mismatch": !mismatch.is_null(), "detail": mismatch}));
+        }
         _ => outcome(serde_json::json!({"unknown_driver": drv})),
     }
 }
